@@ -1136,19 +1136,22 @@ PROPS["C08"] = dict(claimed=True, engine="mirsmt", design="§10",
                          "EntryBoundAlignedBuffer::new/deref/deref_mut/drop) from EVERY state of the invariant with an entry footprint <= budget/4 re-establishes it, "
                          "keeps the volume inserted since the last spill (== entries_len, itself proved) <= 2 x budget (<= budget when reallocation is off), "
                          "spills only when the entry does not fit, grows the buffer only below the budget and only when allowed, and never has more than max + 2 chunks alive.",
-                    note="write_chunk / merge_chunks enter the step by their counter contracts (one create call, one chunk pushed, buffer cleared, merge leaves one chunk): their bodies "
-                         "(writer, merger, iterators) are not encoded, so 'every spill goes through the chunk creator' is claimed only up to those contracts. Budget <= 2^36 "
-                         "(quick) / 2^44 (thorough); process heap high-water marks are measurements and outside.")
+                    note="write_chunk / merge_chunks enter the step by their counter contracts (a chunk only from one ChunkCreator::create call, one chunk pushed, buffer cleared, merge drains "
+                         "all and leaves one chunk); the contracts are themselves discharged against the real MIR of both functions in counter-abstraction mode (writer, merger, merge "
+                         "function, iterators and I/O nondeterministic; loops closed by abstract-state fixpoint). Budget <= 2^36 (quick) / 2^44 (thorough); process heap high-water marks "
+                         "are measurements and outside; a change that adds state the encoder has no value for is reported inconclusive (exit 2), not decided.")
 PROPS["C17"] = dict(claimed=True, engine="mirsmt", design="§10",
                     text="Sorter buffer management only, decided by SMT over the MIR of the real functions: from EVERY state of the representation invariant (buffer length "
                          "<= 2^60, multiple of 16, equal to the live allocation's size) and every key/value length, Entries::insert / fits / remaining / entry_size / "
                          "reallocate_buffer and EntryBoundAlignedBuffer::new / deref / deref_mut / drop satisfy every obligation: no arithmetic overflow, every slice range inside "
                          "its slice, equal copy lengths, cast sizes and alignment, from_raw_parts inside one live allocation, non-zero-size alloc, valid layouts, dealloc layout == "
                          "alloc layout, no double free, no leak, bytes and bound table never overlap, the stored EntryBound describes the bytes just written; the invariant is re-established "
-                         "(so the claim covers insert sequences of any length, repeated doubling, exact fit and entries larger than the buffer).",
-                    note="NOT covered: the read paths that hand out borrowed keys/values (Entries::iter / sort_by_key closures, the lifetime-extending transmutes in block.rs, "
-                         "reader_cursor.rs, range_iter.rs and lib.rs) - aliasing/lifetime questions are not expressible in this integer/allocation-identity encoding; "
-                         "contents of the bytes; allocation failure. Kani's pointer and overflow checks stay on in every harness of the other properties.")
+                         "(so the claim covers insert sequences of any length, repeated doubling, exact fit and entries larger than the buffer). Read side of the sorter buffer: "
+                         "Entries::iter and sort_by_key with their closures hand out, for any stored bound satisfying the per-bound invariant that insert establishes, exactly the stored "
+                         "key/value ranges, inside the byte region of the live allocation.",
+                    note="NOT covered: the lifetime-extending transmutes of the READER side (block.rs, reader_cursor.rs, range_iter.rs, lib.rs) - aliasing/lifetime questions are not "
+                         "expressible in this integer/allocation-identity encoding; that std's sort keeps the bound table a permutation (assumed); contents of the bytes; allocation "
+                         "failure. Kani's pointer and overflow checks stay on in every harness of the other properties.")
 TECH_MS = ("symbolic execution of the real code's MIR (rustc nightly -Zunpretty=mir, regenerated every run) into SMT: every overflow / range / allocation obligation and the "
            "inductive post-conditions are discharged by z3 / cvc5 over all 64-bit values inside the stated bounds; counterexamples are re-executed concretely")
 NOT_YET = "check not built yet in this revision (work in progress; see DESIGN.md §5)"
